@@ -293,7 +293,8 @@ type User implements Node { id: ID }
 type Dog implements Node & Pet { id: ID }
 type Cat implements Node & Pet & Named { id: ID name: String }
 union U = User | Dog
-type Query { node: Node entity: Entity pet: Pet named: Named u: U user: User }
+union Ev = User | Subscription
+type Query { node: Node entity: Entity pet: Pet named: Named u: U user: User ev: Ev }
 type Subscription implements Node & Pet & Named { id: ID name: String other: String }
 directive @onLonely on FIELD
 scalar onLonely
